@@ -7,6 +7,7 @@ package interp
 import (
 	"go/token"
 	"go/types"
+	"strings"
 
 	"golang.org/x/tools/go/ssa"
 )
@@ -20,13 +21,14 @@ type osLog struct {
 	execs    []execEntry
 	onceDone map[*value]bool
 	locks    map[*value]int
+	pools    map[*value][]value
 }
 
 func (e *Engine) oslog() *osLog {
 	if c, ok := e.logs.objs["os"].(*osLog); ok {
 		return c
 	}
-	c := &osLog{onceDone: map[*value]bool{}, locks: map[*value]int{}}
+	c := &osLog{onceDone: map[*value]bool{}, locks: map[*value]int{}, pools: map[*value][]value{}}
 	e.logs.objs["os"] = c
 	return c
 }
@@ -70,6 +72,59 @@ func init() {
 			return out
 		},
 
+		// Share(tag, obj): every memory cell reachable from obj is shared state;
+		// a later write to it is recorded (C20).
+		vpkg + "Share": func(fr *frame, args []value) value {
+			fr.i.shareGraph(argString(fr, args[0], "tag"), args[1], map[*value]bool{})
+			return nil
+		},
+		// ShareGlobals(): the same for every package-level variable of the module under test.
+		vpkg + "ShareGlobals": func(fr *frame, args []value) value {
+			seen := map[*value]bool{}
+			for _, g := range fr.i.ageGlobals {
+				if strings.Contains(g.Pkg.Pkg.Path(), "zzverif") || strings.HasPrefix(g.Name(), "zz") || g.Pkg.Pkg.Path() == harnessPkgOf(fr) && isHarnessGlobal(g) {
+					continue
+				}
+				fr.i.shareGraph("package-level variable "+g.Pkg.Pkg.Path()+"."+g.Name(), fr.i.globals[g], seen)
+			}
+			return nil
+		},
+		vpkg + "SharedWrites": func(fr *frame, args []value) value {
+			out := make([]value, len(fr.i.eng.sharedW))
+			for k, s := range fr.i.eng.sharedW {
+				out[k] = s
+			}
+			return out
+		},
+		"(*sync.Pool).Get": func(fr *frame, args []value) value {
+			ol := fr.i.eng.oslog()
+			p := args[0].(*value)
+			if l := ol.pools[p]; len(l) > 0 {
+				v := l[len(l)-1]
+				ol.pools[p] = l[:len(l)-1]
+				return v
+			}
+			st := (*p).(structure)
+			newFn := st[len(st)-1] // the New field is the last one
+			if newFn == nil {
+				return iface{}
+			}
+			if c, ok := newFn.(*closure); ok && c == nil {
+				return iface{}
+			}
+			if f, ok := newFn.(*ssa.Function); ok && f == nil {
+				return iface{}
+			}
+			return call(fr.i, fr, token.NoPos, newFn, nil)
+		},
+		"(*sync.Pool).Put": func(fr *frame, args []value) value {
+			ol := fr.i.eng.oslog()
+			p := args[0].(*value)
+			ol.pools[p] = append(ol.pools[p], args[1])
+			// an object handed to a pool is reachable by every later user of the pool
+			fr.i.shareGraph("object released to a sync.Pool", args[1], map[*value]bool{})
+			return nil
+		},
 		"(*sync.Once).Do": func(fr *frame, args []value) value {
 			ol := fr.i.eng.oslog()
 			p := args[0].(*value)
@@ -123,4 +178,19 @@ func init() {
 	} {
 		symExternals[k] = v
 	}
+}
+
+func harnessPkgOf(fr *frame) string {
+	for f := fr; f != nil; f = f.caller {
+		if f.caller == nil && f.fn != nil && f.fn.Pkg != nil {
+			return f.fn.Pkg.Pkg.Path()
+		}
+	}
+	return ""
+}
+
+// isHarnessGlobal: package-level variables declared in the overlay harness files.
+func isHarnessGlobal(g *ssa.Global) bool {
+	pos := g.Pkg.Prog.Fset.Position(g.Pos())
+	return strings.Contains(pos.Filename, "zz_verif") || strings.Contains(pos.Filename, "zz_")
 }
